@@ -10,6 +10,7 @@ Output: one line per disagreement and a final SUMMARY line.
 -/
 import Driver.L1
 import Driver.L2
+import Driver.L3
 import Std.Data.HashSet
 
 namespace Driver
@@ -36,6 +37,7 @@ def handle (req ans : String) : Verdict :=
   | "x" :: _ => handleL2 req ans
   | "xr" :: _ => handleL2 req ans
   | "xs" :: _ => handleSeq req ans
+  | "asm" :: _ => handleL3 req ans
   | _ => handleL1 r (words ans)
 
 partial def loop (h : IO.FS.Stream) (out : IO.FS.Stream) (acc : Acc) : IO Acc := do
